@@ -51,6 +51,14 @@ def c_inside(reg, es, ns, shape, kind="inside"):
     return _mk("inside", [list(reg), es, ns, shape], f"inside {C.enc(list(reg))} {_enc_nan(es)} {_enc_nan(ns)}", kind)
 
 
+def c_nodes(reg, shape, spacing, pixel, seed, kind="nodes-inside"):
+    """grid_coordinates(region, shape | spacing adjusted to the region) and scatter_points(region): every node inside the region.
+    Decided on the implementation alone (float bounds that are not binary fractions are the point)."""
+    d = {"fn": "nodes", "args": [list(reg), shape, spacing, pixel, seed], "op": "check_region [ 0 1 0 1 ]", "kind": kind}
+    d["key"] = repr(d["args"])
+    return d
+
+
 def c_pad(reg, pad, kind="pad"):
     pn, pe = (pad, pad) if np.isscalar(pad) else pad
     return _mk("pad", [list(reg), pad], f"pad_region {C.enc(list(reg))} {C.enc(pn)} {C.enc(pe)}", kind)
@@ -87,6 +95,9 @@ def corpus():
           c_scatter((10, 0, -5, 0), 3, 1, None, "scatter-invalid"),
           c_maxabs([[1.0, -5.0, 2.0], [[3.0, 4.0], [0.0, -1.0]]]), c_maxabs([[-7.0]]),
           c_project((0, 2, 0, 1), "shear", [0.5]), c_project((-2, 1, -1, 3), "square", []),
+          c_nodes((0.1, 0.7, 0.1, 0.7), (38, 68), None, False, 1), c_nodes((0.1, 0.7, -0.3, 0.4), (75, 38), None, False, 2),
+          c_nodes((0.1, 0.7, 0.1, 0.7), None, (0.6 / 37, 0.6 / 67), False, 3), c_nodes((2.4, 3.5, 0.05, 0.95), (29, 47), None, True, 4),
+          c_maxabs([[3.0, 7.0, 12.0]], "maxabs-uint"), c_maxabs([[3.0, 7.0, 12.0], [-2.5, 1.0]], "maxabs-uint+float"),
           c_project((0, 4, 0, 2), "radial", [1.0, 0.5]), c_project((-3, 5, -2, 6), "radial", [1.0, 2.0])]
     return cs
 
@@ -94,6 +105,18 @@ def corpus():
 def generate(rng, tier):
     n = 1200 if tier == "quick" else 20000
     cs = []
+    dec = [0.1, 0.7, -0.3, 2.4, 3.3, -7.9, 10.1, 100.7, -1e3 + 0.1, 0.05, 1 / 3.0, 2 / 3.0]
+    for _ in range(300 if tier == "quick" else 8000):
+        # regions whose bounds are NOT binary fractions, many nodes: the last node must still not overshoot the bound
+        w = rng.choice(dec) + rng.randint(-5, 5)
+        e = w + rng.choice([0.6, 1.1, 2.3, 0.07, 17.9, rng.randint(1, 40) / 10.0])
+        s_ = rng.choice(dec)
+        n_ = s_ + rng.choice([0.6, 0.9, 3.7, rng.randint(1, 40) / 10.0])
+        if rng.random() < 0.6:
+            cs.append(c_nodes((w, e, s_, n_), (rng.randint(2, 90), rng.randint(2, 90)), None, rng.random() < 0.3, rng.randint(0, 10**6)))
+        else:
+            cs.append(c_nodes((w, e, s_, n_), None, ((n_ - s_) / rng.randint(1, 80), (e - w) / rng.randint(1, 80)), rng.random() < 0.3,
+                              rng.randint(0, 10**6)))
     for _ in range(n):
         u = rng.random()
         reg = G.region(rng, degenerate_ok=True)
@@ -130,6 +153,10 @@ def generate(rng, tier):
             for _ in range(rng.randint(1, 3)):
                 m = rng.randint(1, 8)
                 arrays.append([G.number(rng) for _ in range(m)])
+            if rng.random() < 0.3:      # integer-valued arrays are handed over with (un)signed integer dtypes (see impl)
+                arrays = [[float(rng.randint(1, 120)) for _ in a] for a in arrays]
+                if rng.random() < 0.5:
+                    arrays[0] = [-v if rng.random() < 0.5 else v for v in arrays[0]]
             cs.append(c_maxabs(arrays))
         else:
             sr = G.small_region(rng) if rng.random() < 0.7 else (-3.0, 2.0, -1.5, 4.0)
@@ -190,8 +217,32 @@ def impl(case):
         return [np.asarray(v).tolist() for v in r]
     if fn == "maxabs":
         arrs = [np.array(x) for x in a[0]]
+        for i, x in enumerate(arrs):
+            fl = x.ravel()
+            if fl.size and np.all(fl == np.round(fl)) and np.all(np.abs(fl) <= 120):
+                # integer-valued arrays get an integer dtype: unsigned when non-negative, else signed (values well inside the range)
+                arrs[i] = x.astype(["uint8", "uint16", "int64"][(i + fl.size) % 3] if np.all(fl >= 0) else ["int16", "int64"][i % 2])
         r = C.call(vd.maxabs, *arrs)
         return r if C.is_err(r) else float(r)
+    if fn == "nodes":
+        reg, shape, spacing, pixel, seed = a
+
+        def run_nodes():
+            g = vd.grid_coordinates(reg, shape=None if shape is None else tuple(shape), spacing=spacing, adjust="spacing", pixel_register=pixel)
+            sc = vd.scatter_points(reg, 25, random_state=seed)
+            out = {"n": int(g[0].size)}
+            for name, c in (("grid", g), ("scatter", sc)):
+                ins = vd.inside(c, reg)
+                out[name] = bool(np.all(ins))
+                if not out[name]:
+                    k = int(np.argmin(ins.ravel()))
+                    out[name + "_bad"] = [float(c[0].ravel()[k]), float(c[1].ravel()[k])]
+            if not pixel:
+                e, n_ = g[0][0, :], g[1][:, 0]
+                out["bounds"] = [float(e[0]), float(e[-1]), float(n_[0]), float(n_[-1])]
+            return out
+        r = C.call(run_nodes)
+        return r if C.is_err(r) else ["nodes", r]
     if fn == "project":
         r = C.call(vd.project_region, a[0], PROJS[a[1]](a[2]))
         return r if C.is_err(r) else [float(v) for v in r]
@@ -199,6 +250,8 @@ def impl(case):
 
 
 def compare(case, io, mo):
+    if case["fn"] == "nodes":
+        return "ok"        # decided by the oracle on the implementation
     if case["fn"] == "project":
         return C.std_compare(io, mo, tol=1e-11)
     return C.std_compare(io, mo)
@@ -257,6 +310,16 @@ def oracle(case, io):
         for k, v in enumerate(a[3] or []):
             if any(x != v for x in io[2 + k]):
                 return "extra coordinate not constant"
+        return None
+    if fn == "nodes":
+        if C.is_err(io):
+            return "grid_coordinates / scatter_points failed: " + io[1]
+        r = io[1]
+        for name in ("grid", "scatter"):
+            if not r[name]:
+                return f"a {name} node {r[name + '_bad']} lies outside the requested region {a[0]} (verde.inside)"
+        if "bounds" in r and r["bounds"] != [float(v) for v in a[0]]:
+            return f"grid lines do not start/end exactly on the region bounds: {r['bounds']} vs {a[0]}"
         return None
     if fn == "maxabs":
         if C.is_err(io):
